@@ -776,7 +776,19 @@ func genIter(t *rapid.T) *c16Iter {
 		}
 		return out
 	}
-	switch rapid.IntRange(0, 12).Draw(t, "ck") {
+	switch rapid.IntRange(0, 13).Draw(t, "ck") {
+	case 13:
+		// a map keyed by floats, some of its keys NaN: such an entry cannot be
+		// looked up again, it is there all the same and is visited like the rest
+		c = sb.V{K: "map:float64:str", E: elems("str")}
+		nans := rapid.IntRange(0, 2).Draw(t, "nans")
+		for i := 0; i < n; i++ {
+			if i < nans {
+				c.KV = append(c.KV, sb.V{K: "nan"})
+			} else {
+				c.KV = append(c.KV, vk("float64", float64(i)+0.5))
+			}
+		}
 	case 12:
 		// a list of structs: membership is decided by the struct, not by the
 		// (empty) string every struct coerces to
